@@ -181,6 +181,23 @@ def direct_oracle(g, seed, rs=None):
             if (not np.all(np.isfinite(gr))) or gr.min() < -1e-5 or np.abs(mass - 1).max() > 1e-3:
                 return dict(what="a pixel is not used exactly once by the induced sub-circuits (gradient mass per pixel != 1)",
                             cls=k, x=x.tolist(), mass=mass.round(5).tolist())
+        # (1b) base layer: the model of the network takes the base layer's outputs as its leaf values, so the base layer is
+        #      tied here: log-density of each (batch component, pixel) = sum over the OBSERVED channels of the Gaussian
+        #      log-density (a missing channel contributes log 1, whatever the other channels of the pixel are)
+        xm = rs.uniform(-2, 2, size=(3, C_, D, D)).astype(np.float32)
+        xm[rs.rand(3, C_, D, D) < 0.35] = np.nan
+        xm[1, 0] = np.nan                                   # one whole channel missing
+        with torch.no_grad():
+            z = m.base_layer(torch.tensor(xm)).double().numpy()
+        loc = m.base_layer.loc.detach().double().numpy(); sc = m.base_layer.scale.detach().double().numpy()
+        xe = xm.astype(np.float64)[:, None]                                   # (n, 1, C, D, D)
+        lp = -0.5 * ((xe - loc[None]) / sc[None]) ** 2 - np.log(sc[None]) - 0.5 * np.log(2 * np.pi)
+        ref = np.where(np.isnan(lp), 0.0, lp).sum(axis=2)
+        if z.shape != ref.shape or not np.all(np.abs(z - ref) <= 1e-4 + 1e-5 * np.abs(ref)):
+            i = np.unravel_index(int(np.nanargmax(np.abs(np.nan_to_num(z, nan=1e30) - ref))), ref.shape) if z.shape == ref.shape else None
+            return dict(what="base layer: a pixel's log-density is not the sum of its OBSERVED channels' Gaussian log-densities",
+                        x=np.where(np.isnan(xm), None, xm).tolist(), at=[int(t) for t in i] if i else None,
+                        impl=float(z[i]) if i else list(z.shape), expected=float(ref[i]) if i else list(ref.shape))
         # (2) fully missing input has log-probability zero
         xn = torch.full((2, C_, D, D), float("nan"))
         lp = m(xn).detach().double().numpy()
